@@ -14,6 +14,13 @@ def family(name):
     return importlib.import_module("vf.drivers." + name)
 
 
+MISSING = {}      # family -> import error text; a family that cannot be imported must never vanish silently
+
+
+class FamilyMissing(Exception):
+    pass
+
+
 def available(prop):
     import os
     only = [x for x in os.environ.get("VERIF_FAMILIES", "").split(",") if x]
@@ -23,7 +30,8 @@ def available(prop):
             continue
         try:
             m = family(f)
-        except ImportError:
+        except ImportError as e:
+            MISSING[f] = "%s: %s" % (type(e).__name__, e)
             continue
         if hasattr(m, "run_" + prop):
             out.append(f)
@@ -31,6 +39,10 @@ def available(prop):
 
 
 def plan(prop, tier, seed):
+    available(prop)
+    if MISSING:
+        # fail closed: the family's cases and its REQUIRED counters would otherwise disappear and the check report "held"
+        raise FamilyMissing("family module(s) could not be imported: %r" % (MISSING,))
     descs = []
     for f in available(prop):
         for d in getattr(family(f), "plan_" + prop)(tier):
@@ -41,6 +53,7 @@ def plan(prop, tier, seed):
 
 
 def run(prop, desc, R, rng):
+    R.seen("families_run", desc["family"])
     getattr(family(desc["family"]), "run_" + prop)(desc, R, rng)
 
 
